@@ -71,6 +71,8 @@ class CodeHooks(S.StatusHooks):
             return [(ai.AI.DIVERGE, mon)]
         if term.get("to") is None:
             return None
+        if path.startswith(("std::", "core::", "alloc::", "<std::", "<core::", "<alloc::")) and not path.endswith(("HashMap::get", "HashMap::contains_key")):
+            return None     # std combinators (map_err, ok_or, and_then, ...) pass a result along; they are not a new source of codes or parses
         ty = dest_ty(self.cr, st, term)
         if is_result_of(ty, is_i32):
             codes = self.codes
